@@ -1,11 +1,25 @@
 #!/bin/bash
-# usage: tools/integrate.sh <Cnn>  -- pulls props/cnn.rs (+ regress) from /tmp/hw/<Cnn> into /verif/harness
+# usage: tools/integrate.sh <Cnn>  -- pulls props/cnn.rs (+ regress, report) from /tmp/hw/<Cnn> into /verif/harness
 ID=$1; n=$(echo $ID | tr 'C' 'c')
 cp /tmp/hw/$ID/harness/src/props/$n.rs /verif/harness/src/props/$n.rs || exit 1
-grep -q "pub mod $n;" /verif/harness/src/props/mod.rs || echo "pub mod $n;" >> /verif/harness/src/props/mod.rs
-grep -q "(\"$ID\"," /verif/harness/src/main.rs || sed -i "s|fn registry() -> Vec<(&'static str, MainFn, ReplayFn)> {\n    vec!\[|&|; /    vec!\[/a\        (\"$ID\", props::$n::main as MainFn, props::$n::replay as ReplayFn)," /verif/harness/src/main.rs
-if [ -d /tmp/hw/$ID/regress/$ID ]; then mkdir -p /verif/regress/$ID; cp /tmp/hw/$ID/regress/$ID/*.json /verif/regress/$ID/ 2>/dev/null; fi
-cp /tmp/hw/$ID/REPORT.md /verif/reports/$ID.md 2>/dev/null
-# engine differences?
+if [ ! -f /verif/harness/src/bin/$n.rs ]; then
+cat > /verif/harness/src/bin/$n.rs <<EOT
+#![allow(clippy::type_complexity, clippy::too_many_arguments, dead_code, unused_imports)]
+pub use rvh::engine;
+
+#[path = "../props"]
+mod props {
+    #[path = "$n.rs"]
+    pub mod $n;
+}
+
+fn main() {
+    rvh::cli::run("$ID", props::$n::main, props::$n::replay)
+}
+EOT
+fi
+if [ -d /tmp/hw/$ID/regress/$ID ]; then mkdir -p /verif/regress/$ID; cp -n /tmp/hw/$ID/regress/$ID/*.json /verif/regress/$ID/ 2>/dev/null; fi
+mkdir -p /verif/reports
+for r in REPORT.md REPORT2.md; do [ -f /tmp/hw/$ID/$r ] && cp /tmp/hw/$ID/$r /verif/reports/$ID-$r; done
 for f in /tmp/hw/$ID/harness/src/engine/*.rs; do b=$(basename $f); if ! diff -q $f /verif/harness/src/engine/$b >/dev/null 2>&1; then echo "ENGINE DIFF: $b"; fi; done
-cd /verif/harness && CARGO_NET_OFFLINE=true cargo build --offline 2>&1 | grep -E "^error" -A 12 | head -40
+cd /verif/harness && CARGO_NET_OFFLINE=true cargo build --offline --bin $n 2>&1 | grep -E "^error" -A 12 | head -40
